@@ -299,7 +299,7 @@ def main(argv=None):
         rp = os.path.join(replay_dir, re.sub(r"[^A-Za-z0-9_.-]+", "_", sr["name"]) + ".json")
         os.makedirs(replay_dir, exist_ok=True)
         json.dump({"property": prop, "obligation": sr["name"], "detail": sr["detail"], "native_failing_inputs": []}, open(rp, "w"), indent=1)
-        if sr["name"].startswith(("scan:no-leak", "scan:fresh-store", "scan:export-frame", "scan:export-determinism", "scan:spec-tables")):
+        if sr["name"].startswith(("scan:no-leak", "scan:fresh-store", "scan:export-frame", "scan:export-determinism", "scan:spec-tables", "scan:atomic-write")):
             violations.append((sr["name"], rp, " no-failing-input-found"))
         else:
             undecided.append(sr["name"] + " (a function outside the contracts writes this field: it needs a contract)")
